@@ -16,6 +16,7 @@ import random as _random
 
 from harness.common.framework import Prop, CaseTimeout
 from harness import c11_geno as G
+from translate import t_c11
 
 ENUM_CAP = {'quick': 250, 'thorough': 600}
 SWEEP_CAP = 80
@@ -140,7 +141,7 @@ class C11(Prop):
   id = 'C11'
   props_modules = ['PgProps.C11']
   driver = 'drv_c11'
-  translators = []
+  translators = [t_c11.run]
   case_timeout_s = 240
   jobs_quick = 8
   rule = ('specs: random trees of spaces / single and multi choices (k<=4, n<=5, all distinct x sorted '
